@@ -140,7 +140,7 @@ PROPS["C13"] = {
     "undecided": ["whole-history coherence for all histories", "concluded data across modules", "auto-import index"],
 }
 PROPS["C09"] = {
-    "sidecars": ["c09_effects.py", "c10_change.py"],
+    "sidecars": ["c09_effects.py", "c10_change.py", "c11_leaves.py"],
     "level": "exploration",
     "claim": "Mostly a bounded check with an effect monitor: every offset x 12 refactorings computes its changes with every disk mutator intercepted and the disk "
              "snapshot compared; scenarios check announced == touched, inside the project, never ignored.  Deductive kernel: ChangeSet.get_changed_resources "
